@@ -435,6 +435,8 @@ func runC04(p *Program, r *Result) {
 	r.Rule("R03.6", "every error return carries a nil reader", 8)
 	checkNothingOnError(p, r, dec, map[string]bool{newReader.String(): true})
 	checkNothingOnError(p, r, newReader, nil)
+	r.Rule("R04.9", "identities are consulted, and the no-match error decided, before anything is read from the payload (= R03.9)", 1)
+	checkPayloadAfterMAC(p, r, dec)
 }
 
 // accumulatingAppend: v is a slice collected by a loop — a merge (possibly nested) one of whose
